@@ -10,7 +10,7 @@ import (
 )
 
 // Mono is a monomial: the sorted, duplicate-free list of variable ids, encoded
-// as a string (2 bytes per variable, big endian). The empty string is the constant 1.
+// as a string (3 bytes per variable, big endian). The empty string is the constant 1.
 type Mono string
 
 // Poly is a set of monomials (XOR of them). The empty set is 0.
@@ -28,6 +28,7 @@ func monoOf(ids ...int) Mono {
 			continue
 		}
 		prev = id
+		sb.WriteByte(byte(id >> 16))
 		sb.WriteByte(byte(id >> 8))
 		sb.WriteByte(byte(id))
 	}
@@ -36,9 +37,9 @@ func monoOf(ids ...int) Mono {
 
 // Vars of the monomial.
 func (m Mono) Vars() []int {
-	out := make([]int, 0, len(m)/2)
-	for i := 0; i+1 < len(m); i += 2 {
-		out = append(out, int(m[i])<<8|int(m[i+1]))
+	out := make([]int, 0, len(m)/3)
+	for i := 0; i+2 < len(m); i += 3 {
+		out = append(out, int(m[i])<<16|int(m[i+1])<<8|int(m[i+2]))
 	}
 	return out
 }
@@ -130,8 +131,8 @@ func Equal(a, b Poly) bool {
 func (p Poly) Degree() int {
 	d := 0
 	for m := range p {
-		if len(m)/2 > d {
-			d = len(m) / 2
+		if len(m)/3 > d {
+			d = len(m) / 3
 		}
 	}
 	return d
